@@ -4,7 +4,7 @@ From V Require Import C09.Model C09.Proofs.
 Import ListNotations.
 Open Scope Q_scope.
 
-Inductive iresult := IPos (x y z : Q) | INaN | IKeyError.   (* doubles as exact rationals *)
+Inductive iresult := IPos (x y z : Q) | INaN | IKeyError | IMissing.   (* doubles as exact rationals; IMissing: no position attribute *)
 
 (* |a - b| <= 1e-9 * max(1, |a|) *)
 Definition close (a b : Q) : bool :=
@@ -18,13 +18,19 @@ Definition res_close (m : result) (i : iresult) : bool :=
   end.
 
 Inductive case :=
-| CSys (mols : list (list (bead * iresult)))               (* one processor instance over several molecules *)
+| CSys (mols : list (list (particle * option (Q * Q * Q) * iresult)))   (* one processor instance over several molecules; (particle, position it had before, result) *)
 | CMotion (f : affine) (b : bead) (before after : iresult).     (* the same bead before and after an affine map of the input *)
 
 Definition corr (k : case) : bool :=
   match k with
-  | CSys ms => forallb (fun l => forallb (fun ri => res_close (fst ri) (snd ri))
-                                          (combine (molecule_positions (map fst l)) (map snd l))) ms
+  | CSys ms => forallb (fun l => forallb (fun ri =>
+                     match fst ri, snd ri with
+                     | PRes r, (_, i) => res_close r i
+                     | PUntouched, (None, IMissing) => true
+                     | PUntouched, (Some (x, y, z), IPos a b c) => Qeq_bool x a && Qeq_bool y b && Qeq_bool z c
+                     | PUntouched, _ => false
+                     end)
+                   (combine (particles_positions (map (fun t => fst (fst t)) l)) (map (fun t => (snd (fst t), snd t)) l))) ms
   | CMotion f b before after =>
       res_close (bead_position b) before
       && res_close (bead_position {| b_graph := map (fun c => {| c_key := c_key c; c_pos := option_map (app_affine f) (c_pos c);
@@ -52,6 +58,7 @@ Definition bead_ok (b : bead) (i : iresult) : bool :=
     match i with
     | INaN => Qle_bool (Qabs (sw l)) (eps * (1 + (1 # 1000)))             (* NaN only when the weights sum to ~0 *)
     | IKeyError => false
+    | IMissing => false          (* a particle with constituents must get a position *)
     | IPos x y z =>
         Qle_bool (eps * (1 - (1 # 1000))) (Qabs (sw l))
         && close (swx l / sw l) x && close (swy l / sw l) y && close (swz l / sw l) z
@@ -62,9 +69,12 @@ Definition bead_ok (b : bead) (i : iresult) : bool :=
 Definition prop (k : case) : bool :=
   match k with
   | CSys ms => forallb (fun l =>
-                 if existsb bead_key_error (map fst l)
-                 then forallb (fun bi => match snd bi with IKeyError => true | _ => false end) l
-                 else forallb (fun bi => bead_ok (fst bi) (snd bi)) l) ms
+                 if existsb particle_key_error (map (fun t => fst (fst t)) l)
+                 then forallb (fun t => match snd t with IKeyError => true | _ => false end) l
+                 else forallb (fun t => match fst (fst t) with
+                                        | PBead b => bead_ok b (snd t)       (* whatever surrounds it in the molecule *)
+                                        | PNoGraph => true
+                                        end) l) ms
   | CMotion f b before after =>
       match before, after with
       | IPos x y z, IPos a b' c =>
